@@ -456,6 +456,18 @@ parse_next_record_header:
     }
     else if (innerType == SSL_RECORD_TYPE_APPLICATION_DATA)
     {
+        /* Application data is only acceptable inside a protected record,
+           and only once the handshake has completed. The sole exception
+           is early data, which a server that accepted it reads (under
+           the early traffic key) while waiting for EndOfEarlyData. */
+        if (!DECRYPTING_RECORDS(ssl) ||
+            (ssl->hsState != SSL_HS_DONE &&
+             ssl->hsState != SSL_HS_TLS_1_3_WAIT_EOED))
+        {
+            psTraceErrr("Application data before handshake completion\n");
+            ssl->err = SSL_ALERT_UNEXPECTED_MESSAGE;
+            goto encodeResponse;
+        }
         if (ssl->hsState == SSL_HS_TLS_1_3_WAIT_EOED)
         {
             if (ssl->sec.tls13ChosenPsk != NULL &&
